@@ -21,7 +21,7 @@ def nudge(x, j):
 @st.composite
 def diagram_family(draw, count=2, min_size=0, max_size=5, allow_diag=True, allow_neg=True,
                    modes=("lattice", "lattice", "float", "mixed", "near"), scales=True, lattice_max=8,
-                   float_box=100.0, dup_bias=False):
+                   float_box=100.0, dup_bias=False, extra_exponents=()):
     """`count` diagrams drawn from one shared coordinate system, so that ties, equal
     births/deaths, touching bars and repeated points occur *between* diagrams too.
 
@@ -36,7 +36,7 @@ def diagram_family(draw, count=2, min_size=0, max_size=5, allow_diag=True, allow
     scale = 1.0
     if mode in ("lattice", "mixed", "near"):
         L = draw(st.integers(2, lattice_max))
-        k = draw(st.sampled_from(SCALE_EXPONENTS)) if scales else 0
+        k = draw(st.sampled_from(SCALE_EXPONENTS + list(extra_exponents))) if scales else 0
         scale = 10.0 ** k
         shift = draw(st.integers(-2 * L, 2 * L)) if allow_neg else draw(st.integers(0, L))
         for _ in range(count):
